@@ -113,7 +113,8 @@ def run_tlc(module, cfg, workdir, workers=None, timeout=1500, heap="3g", simulat
         if m:
             gen = dist = int(m.group(1))
     violated = re.findall(r"Invariant (\w+) is violated", out) + re.findall(r"Action property (\w+) is violated", out)
-    if "Temporal properties were violated" in out:
+    violated += re.findall(r"Temporal property (\w+) was violated", out)
+    if "Temporal properties were violated" in out and not violated:
         violated.append("TEMPORAL")
     if re.search(r"The postcondition .* is violated|Postcondition .* violated|Evaluating assumption", out):
         pass
